@@ -22,6 +22,10 @@ class RunTimeout(BaseException):
     pass
 
 
+class CpuBudget(BaseException):
+    """the run consumed far more CPU time than any terminating run needs"""
+
+
 class Ctx:
     """Everything one simulated run may use."""
 
@@ -78,7 +82,7 @@ class Ctx:
         considers valid is the violation class `unexpected_exception`."""
         try:
             return fn(*a, **kw)
-        except (SimViolation, WorldAbort, RunTimeout, Skip):
+        except (SimViolation, WorldAbort, RunTimeout, CpuBudget, Skip):
             raise
         except Exception as e:
             from ..engines.simmpi import exc_site
@@ -95,7 +99,7 @@ class Ctx:
         call returned (the caller turns that into a violation)."""
         try:
             fn(*a, **kw)
-        except (SimViolation, WorldAbort, RunTimeout):
+        except (SimViolation, WorldAbort, RunTimeout, CpuBudget):
             raise
         except Exception as e:
             return e
@@ -121,6 +125,13 @@ def _alarm(signum, frame):
     raise RunTimeout()
 
 
+def _vtalarm(signum, frame):
+    raise CpuBudget()
+
+
+CPU_LIMIT_S = 25.0      # a normal run uses milliseconds; only a run that never terminates gets here
+
+
 def execute(prop_mod, seed, tier='quick', replay=None, index=None, keep_events=False, wall_limit=120, opts=None):
     """Execute one scenario of a property module; never raises for SUT faults."""
     import hashlib
@@ -131,18 +142,24 @@ def execute(prop_mod, seed, tier='quick', replay=None, index=None, keep_events=F
         if wall_limit:
             old = signal.signal(signal.SIGALRM, _alarm)
             signal.alarm(wall_limit)
+            signal.signal(signal.SIGVTALRM, _vtalarm)
+            signal.setitimer(signal.ITIMER_VIRTUAL, CPU_LIMIT_S)
         try:
             prop_mod.scenario(ctx)
         except Skip as s:
             status, detail = 'skip', str(s)
         except SimViolation as v:
             status, vclass, detail = 'violation', v.cls, v.detail
+        except CpuBudget:
+            status, vclass, detail = 'violation', 'no_progress', ('the run did not terminate within %.0f s of CPU time '
+                                                                  '(normal runs take milliseconds)' % CPU_LIMIT_S)
         except RunTimeout:
             status, vclass, detail = 'harness_error', 'wall_timeout', 'run exceeded %ss wall clock' % wall_limit
         except Exception as e:
             status, vclass, detail = 'harness_error', type(e).__name__, traceback.format_exc()[-3000:]
     finally:
         if wall_limit:
+            signal.setitimer(signal.ITIMER_VIRTUAL, 0)
             signal.alarm(0)
             if old is not None:
                 signal.signal(signal.SIGALRM, old)
